@@ -490,10 +490,23 @@ def traces(v, tier, seed):
             jobs.append(("b%d_%d" % (pages, k // per), "\n".join(lst[k:k + per])))
     v.notes["executions_planned"] = sum(len(x) for x in batches.values())
     lock = threading.Lock()
+    broken = []
+
+    def guarded(name, text, s):
+        try:
+            run_batch(v, drv, name, text, s, lock, kf_listed)
+        except Broken as b:
+            broken.append("%s: %s" % (name, str(b)[:300]))
     with ThreadPoolExecutor(max_workers=4 if tier == "quick" else 5) as ex:
-        futs = [ex.submit(run_batch, v, drv, name, text, seed * 100 + i, lock, kf_listed) for i, (name, text) in enumerate(jobs)]
+        futs = [ex.submit(guarded, name, text, seed * 100 + i) for i, (name, text) in enumerate(jobs)]
         for f in futs:
             f.result()
+    if broken:
+        # a batch that could not be judged must not hide violations found by the others
+        if v.violations:
+            v.notes["batches_not_judged"] = broken
+        else:
+            raise Broken("; ".join(broken)[:1500])
     for key in sorted(kf_listed):
         if not any(key in k for k in v.known):
             v.notes["known_finding_not_observed_" + key] = "no execution showed it on this tree (repaired?)"
